@@ -969,6 +969,44 @@ func (x *oracle) checkC14(ns walletdb.ReadBucket, v *ledger.View) {
 	}
 }
 
+// readerBesideWriter (half of the C14 plans): another caller asks for the
+// unconfirmed list in a read transaction of its own just before a write
+// transaction begins and again after the writer's last write, before its
+// commit. The database isolates it: both answers are the list as of the last
+// commit. What the writer commits must then be what every later caller sees
+// (checkC14 after the operation) - whatever the store remembered while the
+// reader was served.
+func (x *oracle) readerBesideWriter() {
+	var before []*wire.MsgTx
+	x.st.pre = func() {
+		before = nil
+		_ = x.st.view(func(ns walletdb.ReadBucket) error {
+			got, err := x.st.s.UnminedTxs(ns)
+			if err == nil {
+				before = got
+			}
+			return nil
+		})
+	}
+	x.st.mid = func() {
+		if x.env.Failed() {
+			return
+		}
+		x.env.Count("probe.c14-reader-between-write-and-commit")
+		err := x.st.view(func(ns walletdb.ReadBucket) error {
+			got, err := x.st.s.UnminedTxs(ns)
+			if err != nil {
+				return err
+			}
+			if verdict, detail := ledger.CheckTopo(before, got); verdict != ledger.TopoOK {
+				x.failf("toposort:"+verdict+":query=UnminedTxs:reader-beside-open-writer", "a read transaction opened before the writer's commit: UnminedTxs differs from the list as of the last commit (%d transactions): %s (during %s)", len(before), detail, x.w.last)
+			}
+			return nil
+		})
+		x.qerr("View", err)
+	}
+}
+
 // graphProbes counts the shapes of a transaction set that C14 singles out.
 func (x *oracle) graphProbes(set []*wire.MsgTx, suffix string) {
 	in := map[chainhash.Hash]*wire.MsgTx{}
